@@ -368,7 +368,12 @@ def case_alpha(case, res):
             if box and np.any(np.abs(np.concatenate([th0, xp]) - np.tile(T.lo, 2)) < 1e-5):
                 res.skip("point on the edge of the support (float32)")
                 continue
-            la = min(0.0, (lp1 - lp0) + (lq_b - lq_f))
+            raw = (lp1 - lp0) + (lq_b - lq_f)
+            if np.isnan(raw) or abs(lp1) > 1e30:
+                # the float64 oracle itself overflows (Poisson rate exp(eta) at a far-out proposal): no verdict
+                res.skip("oracle overflow at a far-out proposal")
+                continue
+            la = min(0.0, raw)
             if la < -50:
                 res.skip("|log alpha| > 50")
                 continue
@@ -497,7 +502,10 @@ def case_engine(case, res):
             mu1 = xp + (step_b ** 2 / 2) * np.linalg.solve(F1, Tb.grad(xp))
             lq_f = mvn_logpdf(xp, mu0, F0 / step_b ** 2)
             lq_b = mvn_logpdf(x0, mu1, F1 / step_b ** 2)
-            la = min(0.0, Tb.logp(xp) - Tb.logp(x0) + lq_b - lq_f)
+            raw_b = Tb.logp(xp) - Tb.logp(x0) + lq_b - lq_f
+            if np.isnan(raw_b):
+                continue        # the float64 oracle overflowed
+            la = min(0.0, raw_b)
             if la < -50:
                 continue
             res.mon("engine_run_alpha")
